@@ -45,6 +45,9 @@ pub struct DirPlan {
     /// how the directories handed to `enigma_dir::write` / `read` are named and reached (SimDir::styled_dir; 0 = plain)
     #[serde(default)]
     pub dir_style: u8,
+    /// everything lives below a directory whose name is not valid UTF-8
+    #[serde(default)]
+    pub raw_root: bool,
 }
 
 #[derive(Clone, Serialize, Deserialize)]
@@ -158,7 +161,10 @@ impl Engine for C12 {
             p.read_io = IoPlan::gen_legal(&mut s);
         }
         if s.chance(35) {
-            p.dir = Some(DirPlan { rewrite: s.chance(30), create_order: if s.chance(25) { 0 } else { s.next() | 1 }, fault: None, links: 0, dir_style: if s.chance(40) { 1 + s.below(7) as u8 } else { 0 } });
+            p.dir = Some(DirPlan { rewrite: s.chance(30), create_order: if s.chance(25) { 0 } else { s.next() | 1 }, fault: None, links: 0, dir_style: if s.chance(40) { 1 + s.below(7) as u8 } else { 0 }, raw_root: false });
+            if let Some(d) = p.dir.as_mut() {
+                d.raw_root = rng.split("raw-root").chance(12);
+            }
             let mut l = rng.split("links");
             if l.chance(20) {
                 if let Some(d) = p.dir.as_mut() {
@@ -180,7 +186,7 @@ impl Engine for C12 {
                     _ => Fault::EioAtOffset { off: f.below(text_len + 1) },
                 }),
                 _ => {
-                    let d = p.dir.get_or_insert(DirPlan { rewrite: false, create_order: f.next() | 1, fault: None, links: 0, dir_style: 0 });
+                    let d = p.dir.get_or_insert(DirPlan { rewrite: false, create_order: f.next() | 1, fault: None, links: 0, dir_style: 0, raw_root: false });
                     let file = f.usize(nfiles.max(1));
                     d.fault = Some(match f.below(6) {
                         0 | 1 => DirFault::Crash { files: f.range(1, nfiles.max(1) as u64) as usize, at: f.below(400) },
@@ -360,7 +366,12 @@ impl Engine for C12 {
         // ---------------- directory form
         if let Some(dp) = &p.dir {
             st.probe("dir_runs");
-            let mut d = SimDir::new("c12");
+            let mut d = if dp.raw_root { SimDir::new_raw_root("c12") } else { SimDir::new("c12") };
+            if dp.raw_root {
+                st.probe("dir_below_non_utf8_path");
+                st.nontrivial = true;
+                st.sched.u64(0xE4);
+            }
             // the target directory exists and is empty (an empty set creates no file, hence no directory); its name and
             // the path it is reached by are drawn (missed seeded change C12-11: a walk that skips "hidden" entries
             // also skips a root whose own name starts with a dot)
@@ -650,6 +661,11 @@ impl Engine for C12 {
             if d.dir_style != 0 {
                 let mut q = p.clone();
                 q.dir.as_mut().unwrap().dir_style = 0;
+                c.push(q);
+            }
+            if d.raw_root {
+                let mut q = p.clone();
+                q.dir.as_mut().unwrap().raw_root = false;
                 c.push(q);
             }
         }
